@@ -78,7 +78,7 @@ class ProxNewton(BaseSolver):
         w = np.zeros(n_features + fit_intercept, dtype) if w_init is None else w_init
         Xw = np.zeros(n_samples, dtype) if Xw_init is None else Xw_init
         all_features = np.arange(n_features)
-        stop_crit = 0.
+        stop_crit = np.inf  # initialize for case max_iter=0
         p_objs_out = []
 
         is_sparse = issparse(X)
